@@ -64,7 +64,9 @@ for d in sorted(glob.glob(os.path.join(HERE, "seeded", "*"))):
         continue
     m = json.load(open(mp))
     sid = m["id"]
-    desc, needs = DESC.get(sid, ("see notes.md", "see notes.md"))
+    desc, needs = DESC.get(sid, (m.get("change") or "see notes.md", m.get("needs_to_manifest") if m.get("needs_to_manifest") not in (None, "see notes.md") else "see notes.md"))
+    if m.get("result_at_first_intake") and m["result_at_first_intake"] != "DETECTED":
+        needs += f" (first intake: {m['result_at_first_intake']})"
     res = ", ".join(f"{k}: {v}" for k, v in m.get("our_checks_quick", {}).items())
     first = ""
     for k, v in m.get("first_violation", {}).items():
